@@ -92,6 +92,22 @@ FIRST = {
     "C10-12": "**missed at first** by every property; C06.R10 added (no QBits constructor / factory call takes size or stride from its grouped payload), re-checked under C10.R13",
     "C11-12": "**missed at first**: C12 / C03 raised a FALSE alarm (an in-place `buffer.copy_(v)` through a setter procedure was not seen as the store of `v`) and C09 was undecided; the path engine now reports an in-place copy into a scale buffer as the store it is and always expands setter procedures; C11.R10 added (while module outputs alias the scale buffers - C13.R6 - the buffers are replaced, never written in place)",
     "C12-11": "**missed at first** (C13 undecided: handles kept as one tuple were not recognised); C13.R1 reads tuple-valued handle attributes and has a conditional-registration clause (registration guarded by object state that __exit__ never re-arms), re-checked under C12.R7",
+    # round 7 (new code: a handler, a route, a helper, a registry entry, a serialized key - added next to what exists)
+    "C02-21": "**undecided at first** (`base.is_contiguous()` in the new fast path of group()); a question about strides has no answer in a layout, so the layout interpreter now explores both answers as instances - the rank-3 instance of the new branch fails `ungroup(group(x)) == x`",
+    "C05-22": "**undecided at first** (`aten.mv` unclassified); matrix x vector handlers are typed like mm / bmm: the (M, 1) scale against the (M,) result is reported by C05.R14",
+    "C06-21": "C05.R4 at once; **C06 missed**; a scale re-laid out by an op other than a 2-D transpose is now also reported under C06.R8",
+    "C06-22": "**missed at first** by every property (no rule looked at a new handler of the QBitsTensor table); C14.R8 / C06.R11 added (the number of groups per index is (numel // shape[axis]) // group_size wherever it is computed), and a QBits handler other than moves / detach / clone is declared undecided instead of passed over",
+    "C08-21": "**missed at first** by every property (a new function wrapper was not looked at); unknown wrappers are now declared undecided (C05.R8 / C08.R8) and C08.R11 added (a per-channel vector is not broadcast through a literal rank without a guard on the rank)",
+    "C10-21": "C09.R9 at once; **C10 missed**; C10.R14 added (nothing reachable from _load_from_state_dict writes the scale buffers)",
+    "C10-22": "C14.R3 at once; **C10 missed**: the value classifier of C10.R3 took every `self.<attr>` for a tensor; tensors are now the parameters and registered buffers only",
+    "C11-21": "**missed at first** by every property; C11.R11 added (a wrapper registered for a torch function runs above autograd: it never returns a quantized tensor it assembled itself)",
+    "C11-22": "**undecided at first**; C11.R12 added (a sum evaluated over `range(n // k)` blocks handles the `n % k` remaining rows), with built-in positive and negative examples",
+    "C13-22": "**missed at first** by every property; random draws are an effect of the call graph (they read and advance the global generator): reported by C13.R3 / C13.R4 (and C14.R7)",
+    "C14-21": "C02.R9 at once; **C14 undecided**; the purity rules are re-checked under C14.R7",
+    "C15-21": "**missed at first**; C15.R15 added (the packed AWQ payload is only ever copied whole: the dispatch keeps the packed form for detach / clone / moves, and no site re-wraps indexed packed data)",
+    "C15-22": "**missed at first**; C15.R16 added (a handler of the shared QBitsTensor table that rebuilds the operand's own class does no arithmetic on scale / zero-point unless the operand is known to be a plain QBitsTensor)",
+    "C16-21": "**missed at first** (C05 undecided); C16.R10 added (outside the quantizer pipelines no quotient has a scale in its denominator unless it is sanitised), with a built-in example",
+    "C16-22": "C03.R7 / C12.R3 at once; **C16 missed**; the calibration-hook rules are re-checked under C16.R11",
     "C15-12": "C02.R3 / C16.R7 at once; **C15 missed**; the dequantizer rule is re-checked under C15.R14 (the reference side of `AWQ == standard representation`)",
 }
 
